@@ -241,7 +241,11 @@ Section Cplx.
      products reads the heap as the previous write left it. *)
   Definition heap := nat -> tens cxT.
   Definition upd (h : heap) (s : nat) (v : tens cxT) : heap := fun s' => if Nat.eqb s' s then v else h s'.
-  (* write into the real / imaginary part of a buffer: new value f old_part p (same shape required) *)
+  (* write into the real / imaginary part of a buffer: new value f old_part p.  The zip is STRICT: a buffer whose
+     shape is not the shape of the product is an error.  The code (since /repo d718730) checks
+     [out.shape != (2, *broadcast shape)] -> RuntimeError right after the identity guard and before any write; in
+     the model the very first write fails in exactly that case, before the heap is touched, and the writes never
+     change a shape, so the two formulations agree (theory/CplxOutR.v: scalar_mult_out_fresh_wrong_shape). *)
   Definition wr_re (f : T -> T -> T) (p : tens T) (old : tens cxT) : option (tens cxT) :=
     tzip_strict (fun n o => (f (fst o) n, snd o)) p old.
   Definition wr_im (f : T -> T -> T) (p : tens T) (old : tens cxT) : option (tens cxT) :=
@@ -382,8 +386,9 @@ Section Cplx.
   (* ---- sigmoid(x, y) = e^z / (1 + e^z), z = x + i y (numpy complex arithmetic) ---- *)
   Definition cexp (x y : T) : cxT := cscale O (nexp O x) (cexp_i O y).
   Definition csigmoid (x y : T) : cxT := let e := cexp x y in cdiv O e (cadd O (c1 O) e).
+  (* numpy broadcasts x against y (same rule as torch); a failed broadcast is numpy's ValueError *)
   Definition sigmoid (x y : tens T) : res (tens cxT) :=
-    of_opt ValueErr (tzip_strict csigmoid x y).
+    of_opt ValueErr (tzip_bcast csigmoid x y).
 
   (* ---- inverse / scalar_divide ---- *)
   Definition inverse (z : tens cxT) : tens cxT := tmap (cinv O) z.
